@@ -195,7 +195,31 @@ def enumerate_bounded(ctx, strategies):
   ctx.extra['bounded_preemption_runs'] = ctx.extra.get('bounded_preemption_runs', 0) + total
 
 
+DUP_WORKLOADS = [
+  [[['store', 'a', 1, 1], ['store', 'a', 2, 2], ['store', 'b', 1, 3], ['store', 'a', 2, 4], ['store', 'a', 3, 5]], [['drain'], ['drain']]],
+  [[['store', 'a', 1, 1], ['store', 'a', 1, 2], ['store', 'b', 1, 3], ['store', 'b', 1, 4]], [['drain'], ['drain'], ['drain']]],
+]
+
+
+def enumerate_single(ctx, fn, extra=None, workloads=None):
+  """every placement of ONE preemption for small fixed workloads with re-sent timestamps (the narrow windows
+  inside store()/drain_metric() are reached deterministically instead of by luck)."""
+  total = 0
+  for strategy in cachesim.STRATEGIES:
+    for wl in (workloads or DUP_WORKLOADS):
+      for first in (0, 1):
+        base = {'strategy': strategy, 'programs': wl, 'switches': [], 'choices': [], 'first': first}
+        base.update(extra or {})
+        n = unpreempted_steps(base) + 25
+        for i in range(1, n):
+          fn(ctx, dict(base, switches=[[i, 1]]))
+          total += 1
+  ctx.extra['single_preemption_runs'] = ctx.extra.get('single_preemption_runs', 0) + total
+
+
 def run(ctx):
+  if (ctx.shard or 0) == 0:
+    enumerate_single(ctx, execute)
   if ctx.quick:
     for i, s in enumerate(cachesim.STRATEGIES):
       run_given(ctx, concurrent_cases(s), execute, 450, salt=10 + i)
